@@ -7,6 +7,8 @@ def build(run):
     PP.class_invariant(run)
     PP.copy_forwards_options(run)
     PP.atoms_getters_return_copies(run)
+    PP.masses_setter_index_functions(run)
+    PP.dataset_setter_copies(run)
     DN.nac_params_not_modified(run)
     run.not_decided += ["ownership of arrays handed in/out (force_constants setter keeps the caller's array by documented design)",
                         "result objects (mesh, band structure, ...) computed before a state change",
